@@ -181,6 +181,12 @@ func c04RunOpt(e *Env, tr string, faults bool, audit bool) {
 		if b2, err := r.GetOptionUint32(message.Block2); err == nil && b2>>4 > 0 && len(body) == 0 {
 			e.Probe("handler.randomAccessContinuation")
 			e.Notef("B handler n=%d %s: continuation request for response block %d (no body)", n, path, b2>>4)
+			if (r.Code() == codes.POST || r.Code() == codes.PUT) && x.upSize > 0 {
+				// For a GET that is random access. A POST/PUT that asks for a later block of its response is the
+				// continuation of an exchange whose request body the application was given before: running the method
+				// again, on an empty body, is a second - and wrong - hand-over.
+				e.Violate("C04.R2", "method-re-executed-on-an-empty-body:"+c04KindNames[x.kind], "transfer n=%d: the request handler was run again for a %v that asks for block %d of its response and carries no body (the application supplied %d bytes)", n, r.Code(), b2>>4, x.upSize)
+			}
 			if path == "/both" || path == "/down" {
 				_ = w.SetResponse(codes.Content, message.AppOctets, bytes.NewReader(downBody(x)), message.Option{ID: message.ETag, Value: etagOf(x)})
 			}
